@@ -370,6 +370,15 @@ def r01_10(ctx: Ctx) -> None:
                 n += 1
                 ctx.ok("R01.10", f"{f.qname}: declared-size fetch goes through {attr_tail(c)}")
     ctx.floor("R01.10", n, 1, "declared-size fetches from the archive handle")
+    # the fixed-width readers of the signature header (4 and 8 bytes) and the signature test: a first volume shorter than 32 bytes (`c -v 16b` is a
+    # size the CLI accepts) splits them too
+    for mod, qual in (("archiveinfo", "read_real_uint64"), ("archiveinfo", "read_uint32"), ("py7zr", "SevenZipFile._check_7zfile")):
+        f = ctx.prog.func(mod, qual)
+        for c in q.calls(f):
+            if attr_tail(c) == "read" and isinstance(c.func, ast.Attribute) and c.args and not (isinstance(c.args[0], ast.Constant) and c.args[0].value == 1):
+                ctx.fail("R01.10", f, c, f"`{norm(c)}` reads several bytes of the signature header with a single read(): on a volume set whose first volume is shorter than the "
+                         "32-byte signature header (volume sizes below 32 are accepted by `c -v`) the read comes back short: struct.error, or 'not a 7z file'",
+                         construct=f"single read in {f.name}")
     # (b)
     d = ctx.prog.func("compressor", "SevenZipDecompressor._decompress")
     calls = [c for c in q.calls(d) if attr_tail(c) == "decompress"]
